@@ -260,6 +260,10 @@ func ruleLoadRepair(c *Ctx) {
 	}
 	// load errors and repair errors propagate
 	c.needOnSuccess(rule, load, []Ev{newSettledEv(load, "SaveRule", callMatcher(saveRule)), newSettledEv(load, "DeleteRule", callMatcher(delRule))}, all, "a failed repair write fails the load")
+	// repair order: the copy under the canonical key is written before any stale key is deleted, so a
+	// failure (or a crash) in between leaves at least one copy for the next load to repair
+	c.need(rule, load, "call SaveRule (repair)", instrCallMatcher(saveRule), []Ev{&calledEv{name: "a DeleteRule was issued earlier", match: instrCallMatcher(delRule)}},
+		func(h []bool) bool { return !h[0] }, "no stale key is deleted before every repaired rule was re-saved")
 	// savePatch: every write error aborts the commit (whatever variable the error travels in)
 	sp := P.Method(plc, "RuleManager", "savePatch")
 	c.needOnSuccess(rule, sp, []Ev{newSettledEv(sp, "SaveRule", callMatcher(saveRule)), newSettledEv(sp, "DeleteRule", callMatcher(delRule)),
@@ -334,11 +338,54 @@ func ruleInitializeOrder(c *Ctx) {
 	c.Check(okNext && okArg, rule, "page cursor in "+fnName(lp), "the next page starts at (last key of the page) + \"\\x00\": strictly after it, so no key is delivered twice (a second delivery is treated as a duplicate and deleted)", P.pos(lp.Pos()), "")
 }
 
+// ruleSortedRulesIdentity: the sweep that builds the key-range index keeps the
+// set of rules active at the current key; the rule leaving the set at its end
+// key is identified by its full key (group id, id) — ids are unique only within
+// a group.
+func ruleSortedRulesIdentity(c *Ctx) {
+	P := c.P
+
+	rule := c.Prop + "/index-identity"
+	del := P.Method(plc, "sortedRules", "deleteRule")
+	rules := P.Field(plc, "sortedRules", "rules")
+	key := F(P.Method(plc, "Rule", "Key"))
+	gid := P.Field(plc, "Rule", "GroupID")
+	id := P.Field(plc, "Rule", "ID")
+	var param ssa.Value
+	if len(del.Params) == 2 {
+		param = del.Params[1]
+	}
+	isRulePtr := func(v ssa.Value) bool { return param != nil && types.Identical(v.Type(), param.Type()) }
+	evs := []Ev{
+		guardRel("Key() == Key()", "==", resultOfCall(key), resultOfCall(key)),
+		guardRel("the same *Rule", "==", same(param), isRulePtr),
+		guardRel("GroupID == GroupID", "==", loadOfField(gid), loadOfField(gid)),
+		guardRel("ID == ID", "==", loadOfField(id), loadOfField(id)),
+	}
+	c.need(rule, del, "removal from the active set", func(x ssa.Instruction) bool { return isStoreToField(x, rules) }, evs,
+		func(h []bool) bool { return h[0] || h[1] || (h[2] && h[3]) },
+		"the rule removed from the active set is the one with the same (group id, id), not merely the same id")
+	// and Key() is built from both
+	kf := P.Method(plc, "Rule", "Key")
+	c.saw(fnName(kf))
+	hasG, hasI := false, false
+	for _, b := range kf.Blocks {
+		for _, ins := range b.Instrs {
+			if v, ok := ins.(ssa.Value); ok {
+				hasG = hasG || isLoadOf(v, gid)
+				hasI = hasI || isLoadOf(v, id)
+			}
+		}
+	}
+	c.Check(hasG && hasI, rule, "Rule.Key()", "built from the group id and the id", P.pos(kf.Pos()), "")
+}
+
 func init() {
 	register("C13", "Placement rule updates are all-or-nothing and the key-range index is exact", func(c *Ctx) {
 		c.Group("C13/build-save-commit", "an update is published (config maps and key-range index) only after the new index was built and the update saved; every mutator commits its own patch under the write lock", func() { ruleCommitOrder(c) })
 		c.Group("C13/ownership", "the served maps and index are written only by the configuration's own methods, the patch commit and the loaders", func() { ruleRuleConfigOwnership(c) })
 		c.Group("C13/validity", "every segment is validated on the rule set that will apply (after override): non-empty, one leader at most, at least one voter or leader", func() { ruleValidityAtoms(c) })
+		c.Group("C13/index-identity", "the sweep building the key-range index drops a rule from the active set by its full (group id, id) key", func() { ruleSortedRulesIdentity(c) })
 		c.Group("C13/borrowed-immutable", "rules handed out by the manager are never edited in place", func() { ruleBorrowedImmutable(c) })
 		c.Group("C13/load-and-save-keys", "rules are saved under their canonical key, mis-keyed entries are repaired at load, write errors abort", func() { ruleLoadRepair(c); ruleInitializeOrder(c) })
 	})
